@@ -88,6 +88,7 @@ static int envprobe(long expect_nw) {
   return 0;
 }
 
+void mvh_warmup(void) __attribute__((weak));
 int main(int argc, char **argv) {
   const char *cname = 0, *replay = 0, *outdir = "", *sigfile = 0;
   uint64_t seed = 1; long start = 0, runs = 1; int tier = 0, verbose = 0, dump_plan = 0;
@@ -145,6 +146,9 @@ int main(int argc, char **argv) {
   cur_class = c;
   mvsim_set_plan_dumper(plan_dumper);
 
+#ifdef MVSIM_MEM_FLAVOUR
+  if (mvh_warmup) { mvsim_set_context(mvh_harness_name, "warmup", 0, -1, outdir); mvh_run_flags = 0; mvh_warmup(); }
+#endif
   FILE *sf = sigfile ? fopen(sigfile, "ab") : 0;
   double t0 = now_s();
   mvsim_runstats tot; memset(&tot, 0, sizeof tot);
